@@ -1738,6 +1738,8 @@ class Model:
                         return None
             if name == 'setAttrNode' and a[1].t == ATTR and a[1].owner is a[0] and not a[0].ro:
                 return 'own-attribute'
+            if name == 'rg' and a[1] in ('selectNode', 'selectNodeContents') and a[2].t == COMMENT:
+                return 'range-select-comment'
             if name in BY_NAME_OPS and a[0].t == ELEMENT and a[0].mapdirty:
                 return 'attr-map-out-of-order'
             if name == 'rename' and a[1].t == ATTR and not a[1].l2 and a[1].owner is not None and a[1].owner.mapdirty:
@@ -1857,7 +1859,7 @@ UD_KEYS = ['k1', 'k2', 'é']
 # break there (DESIGN section 5) and nothing can be compared afterwards
 # ('insert-into-self', 'count-huge' and 'leaf-firstchild-source' were in this set until the defects behind them were repaired in
 #  /repo: f2fc716, 0051c70, 9a920c0.  They are ordinary operand classes now and stay pinned in the check's special cases.)
-TAIL_ONLY = {'attr-map-out-of-order', 'illegal-owned-attr', 'own-attribute', 'illegal-ns-aware-node', 'after-element-ending-in-text'}
+TAIL_ONLY = {'range-select-comment', 'attr-map-out-of-order', 'illegal-owned-attr', 'own-attribute', 'illegal-ns-aware-node', 'after-element-ending-in-text'}
 
 
 # Deviations from the DOM text that the unchanged tree is known to have (notes/C13.md).  The GENERATOR follows them, so that
@@ -1865,7 +1867,8 @@ TAIL_ONLY = {'attr-map-out-of-order', 'illegal-owned-attr', 'own-attribute', 'il
 # first and reports the deviation.  Remove an entry when the corresponding defect is fixed in /repo.
 KNOWN_DEVIATIONS = set(ALL_QUIRKS)
 # the same for the views of C14 (notes/C14.md)
-VIEW_QUIRKS = ('treewalker-previousNode-one-level', 'treewalker-hidden-node-filter-reject', 'range-selectNode-chardata-selects-contents')
+VIEW_QUIRKS = ('treewalker-previousNode-one-level', 'treewalker-hidden-node-filter-reject', 'range-selectNode-chardata-selects-contents',
+               'range-toString-includes-comment-and-pi-data')
 KNOWN_VIEW_DEVIATIONS = set(VIEW_QUIRKS)
 
 
@@ -2221,6 +2224,9 @@ class Gen:
             n = self.pick()
         if n is None or d is None:
             return None
+        if self.views and n.t == ELEMENT and any(v.kind == 'L' and v.how != 'children' and v.doc is n.docnode() for v in self.m.views.values()):
+            # DOMDeepNodeListImpl keeps its cached position across an in-place rename (no change-counter bump): pinned special case of C14
+            return None
         if r.random() < 0.5:
             ns, qn = None, self.l1name(bad=0.12)
         else:
@@ -2230,7 +2236,7 @@ class Gen:
         return self.emit('rename', self.newh(), [d.h, n.h, ns, qn])
 
     def g_normalize(self):
-        n = self.pick(lambda n: n.t in (ELEMENT, DOC, FRAG, ATTR) or self.r.random() < 0.1)
+        n = self.pick(lambda n: (n.t in (ELEMENT, DOC, FRAG, ATTR) or self.r.random() < 0.1) and not any(x.ro for x in subtree(n)))
         if n is None:
             return None
         return self.emit('normalize', None, [n.h])
@@ -2256,8 +2262,9 @@ class Gen:
         if k == 'getAttrNode':
             return self.emit(k, self.newh(), [el.h, self._attr_name_for(el)])
         if k in ('setAttrNS',):
-            if el.attrs and r.random() < 0.3:
-                a = r.choice(el.attrs)
+            l2a = [x for x in el.attrs if x.l2 and not x.isid]
+            if l2a and r.random() < 0.3:
+                a = r.choice(l2a)
                 ns, qn = a.ns, (a.name if r.random() < 0.6 else ('q:' + (a.local or a.name)))
             else:
                 ns, qn = self.nsname(attr=True)
@@ -2360,7 +2367,8 @@ class Gen:
         return self.emit('splitText', self.newh(), [n.h, self._offset(n, 0.1)])
 
     def g_rwt(self):
-        n = self.pick(lambda n: n.t in (TEXT, CDATA) and n.parent is not None and n.parent.t == ELEMENT)
+        n = self.pick(lambda n: n.t in (TEXT, CDATA) and n.parent is not None and n.parent.t == ELEMENT and self.m._under_docelement(n)
+                      and not n.ro and not n.parent.ro)
         if n is None:
             return None
         if self.r.random() < 0.3:
@@ -2551,7 +2559,12 @@ class Gen:
             return self.emit('rg', None, [vid, k, b[0].h, b[1]])
         if k == 'collapse':
             return self.emit('rg', None, [vid, 'collapse', r.choice([0, 1])])
-        n = self.pick(lambda n: n.docnode() is v.doc and (n.parent is not None or r.random() < 0.1) and n.t != DOC) or self.pick()
+        if k == 'selectNodeContents':
+            n = self.pick(lambda n: n.docnode() is v.doc or n is v.doc)
+        elif r.random() < 0.9:
+            n = self.pick(lambda n: n.docnode() is v.doc and n.parent is not None and n.t != DOCTYPE)
+        else:       # illegal node types for these setters
+            n = self.pick(lambda n: n.docnode() is v.doc and n.t in (ATTR, FRAG, DOC)) or self.pick(lambda n: n is v.doc)
         if n is None:
             return None
         return self.emit('rg', None, [vid, k, n.h])
@@ -2607,7 +2620,10 @@ class Gen:
         if k == 'set':
             return self.g_rgset(vid)
         if k == 'cmp':
-            others = self.live_views('R')
+            others = [(i, o) for i, o in self.live_views('R') if o.detached or v.detached or o.doc is not v.doc or _root_of(o.sc) is _root_of(v.sc)
+                      and _root_of(o.ec) is _root_of(v.ec) and _root_of(o.sc) is _root_of(o.ec)]
+            if not others:
+                return None
             ov, _ = r.choice(others)
             return self.emit('rg', None, [vid, 'cmp', r.randrange(4), ov])
         if k == 'cloneRange':
@@ -3528,6 +3544,10 @@ def _op_rg(self, want, vid, what, *a):
         return e
     if v.detached:
         e.codes = {INVALID_STATE}; e.cls = what + '-detached'
+        if what == 'cmp':
+            o = _view(self, a[1], 'R')
+            if o.doc is not v.doc:
+                e.codes.add(WRONG_DOC)
         return e
     if what == 'detach':
         v.detached = True
@@ -3563,11 +3583,13 @@ def _op_rg(self, want, vid, what, *a):
                 raise Undecided('setStart/End with a foreign node')
             return e
         _rg_set(self, v, 's' if what == 'setStart' else 'e', c, o)
+        e.res = _rg_state(self, v)
         return e
     if what in ('setStartBefore', 'setStartAfter', 'setEndBefore', 'setEndAfter', 'selectNode'):
         n = a[0]
         errs = set()
-        if _rg_check_container(n) or n.t in (DOC, FRAG, ATTR, ENTITY, NOTATION):
+        # (for these setters the node type rule concerns the proper ancestors of refNode, a DocumentType itself may be selected)
+        if (n.parent is not None and _rg_check_container(n.parent)) or n.t in (DOC, FRAG, ATTR, ENTITY, NOTATION):
             errs.add(INVALID_NODE_TYPE)
         if what != 'selectNode' and _root_of(n).t not in (ATTR, DOC, FRAG):
             errs.add(INVALID_NODE_TYPE)
@@ -3580,6 +3602,8 @@ def _op_rg(self, want, vid, what, *a):
             return e
         if n.parent is None:
             raise Undecided('range setter on a parentless node')
+        if n.t == DOCTYPE:
+            raise Undecided('range setter on a DocumentType (Xerces: selectNode refuses it, setStartBefore takes it)')
         p, i = n.parent, n.index()
         if what == 'selectNode':
             if n.t in CHARDATA_TYPES:
@@ -3588,12 +3612,15 @@ def _op_rg(self, want, vid, what, *a):
                 if 'range-selectNode-chardata-selects-contents' in self.quirk:
                     v.sc = v.ec = n
                     v.so, v.eo = 0, len(n.data)
+                    e.res = _rg_state(self, v)
                     return e
             v.sc = v.ec = p
             v.so, v.eo = i, i + 1
+            e.res = _rg_state(self, v)
             return e
         o = i if what.endswith('Before') else i + 1
         _rg_set(self, v, 's' if what.startswith('setStart') else 'e', p, o)
+        e.res = _rg_state(self, v)
         return e
     if what == 'selectNodeContents':
         n = a[0]
@@ -3604,12 +3631,14 @@ def _op_rg(self, want, vid, what, *a):
             raise Undecided('selectNodeContents with a foreign node')
         v.sc = v.ec = n
         v.so, v.eo = 0, node_length(n)
+        e.res = _rg_state(self, v)
         return e
     if what == 'collapse':
         if a[0]:
             v.ec, v.eo = v.sc, v.so
         else:
             v.sc, v.so = v.ec, v.eo
+        e.res = _rg_state(self, v)
         return e
     if what == 'cmp':
         how, vid2 = a
@@ -3626,7 +3655,14 @@ def _op_rg(self, want, vid, what, *a):
         e.res = 'i:%d' % cmp_points(pa[0], pa[1], pb[0], pb[1])
         return e
     if what == 'toString':
-        e.res = 's:' + esc(_rg_tostring(v))
+        if _root_of(v.sc) is not _root_of(v.ec):
+            raise Undecided('range over two trees')
+        plain = _rg_tostring(v)
+        marked = _rg_tostring(v, True)
+        if plain != marked:
+            e.quirks.append('range-toString-includes-comment-and-pi-data')
+            e.cls = 'toString-over-comment-or-pi'
+        e.res = 's:' + esc(marked if 'range-toString-includes-comment-and-pi-data' in self.quirk else plain)
         return e
     if what == 'cloneRange':
         nv = RangeView(v.doc)
@@ -3637,6 +3673,13 @@ def _op_rg(self, want, vid, what, *a):
         frag = _rg_contents(self, v, what, e)
         if frag is not None:
             e.res = self.result(frag, want)
+        else:
+            e.res = _rg_state(self, v)
+        return e
+    if what in ('insertNode', 'surround'):
+        e = _rg_insert(self, v, a[0], e) if what == 'insertNode' else _rg_surround(self, v, a[0], e)
+        if e.codes is None:
+            e.res = _rg_state(self, v)
         return e
     if what == 'insertNode':
         return _rg_insert(self, v, a[0], e)
@@ -3645,15 +3688,17 @@ def _op_rg(self, want, vid, what, *a):
     raise Undecided('range op ' + what)
 
 
-def _rg_tostring(v):
-    """concatenation of the character data of Text / CDATASection nodes inside the range (DOM L2 Range 2.10)"""
+def _rg_tostring(v, with_markup_data=False):
+    """concatenation of the character data of Text / CDATASection nodes inside the range ("only the data characters, not any
+    markup", DOM L2 Range 2.10); with_markup_data: also the data of comments and processing instructions (what Xerces returns)"""
     if v.sc is v.ec and v.so == v.eo:
         return ''
     out = []
     root = _root_of(v.sc)
     n = root
+    types = CHARDATA_TYPES if with_markup_data else (TEXT, CDATA)
     while n is not None:
-        if n.t in (TEXT, CDATA):
+        if n.t in types:
             ln = len(n.data)
             # portion of n inside the range
             lo, hi = 0, ln
@@ -3767,6 +3812,9 @@ def _rg_contents(self, v, what, e):
     sc, so, ec, eo = v.sc, v.so, v.ec, v.eo
     if _root_of(sc) is not _root_of(ec):
         raise Undecided('range over two trees')
+    if _root_of(sc).t not in (DOC, FRAG, ATTR) and not (sc is ec):
+        # DOM L2 Range only defines ranges whose root container is a Document, DocumentFragment or Attr
+        raise Undecided('content operation on a range inside a detached subtree')
     touched = _rg_nodes_touched(v)
     if any(x.t == DOCTYPE for x in touched):
         raise Undecided('doctype inside a range')
